@@ -585,6 +585,7 @@ func genWorld(rt *rapid.T, kinds []string, maxUpgrades []int, plain, conc bool) 
 		}
 	}
 	w.Opts = genOpts(rt, w, maxUpgrades, plain, conc)
+	w.VersionsOrder = draw(rt, "versions.order", "", "", "desc", "rot")
 	return w
 }
 
